@@ -136,7 +136,7 @@ class Facts(object):
                     if ri is not None and ri.tx and ri.tx[0].ei < e.i and (ri.fire is None or ri.fire[0] > e.i):
                         want = {"publish": ("PUBACK",) if ri.qos == 1 else ("PUBREC", "PUBCOMP"),
                                 "subscribe": ("SUBACK",), "unsubscribe": ("UNSUBACK",)}[ri.kind]
-                        if d[0] in want:
+                        if d[0] in want and (d[0] != "PUBCOMP" or any(k[3] == "PUBREC" for k in ri.acks)):
                             ri.acks.append((e.i, e.step, e.t, d[0], e.c))
             elif e.k == "timers":
                 self.step_end[e.step] = e
